@@ -136,6 +136,50 @@ func (f *fifoSource) Len() int {
 	return n
 }
 
+// readerFunc adapts a function to io.Reader (the http.HandlerFunc idiom). A
+// func value is a perfectly legal io.Reader whose dynamic type can neither be
+// compared with == nor used as a map key.
+type readerFunc func(p []byte) (int, error)
+
+func (f readerFunc) Read(p []byte) (int, error) { return f(p) }
+
+// valueSource is a reader passed by value whose struct holds a slice: not
+// hashable, not comparable either.
+type valueSource struct {
+	dev  *SimSource
+	tags []string
+}
+
+func (v valueSource) Read(p []byte) (int, error) { return v.dev.Read(p) }
+
+// seekableSim is the simulated device with a Seek method (a file-like device
+// node): everything the device does - short reads, faults - stays as it is.
+type seekableSim struct{ dev *SimSource }
+
+func (s seekableSim) Read(p []byte) (int, error) { return s.dev.Read(p) }
+func (s seekableSim) Seek(off int64, whence int) (int64, error) {
+	s.dev.mu.Lock()
+	defer s.dev.mu.Unlock()
+	var np int64
+	switch whence {
+	case io.SeekStart:
+		np = off
+	case io.SeekCurrent:
+		np = s.dev.pos + off
+	default:
+		if l := s.dev.st.Len(); l >= 0 {
+			np = l + off
+		} else {
+			return s.dev.pos, os.ErrInvalid
+		}
+	}
+	if np < 0 {
+		return s.dev.pos, os.ErrInvalid
+	}
+	s.dev.pos = np
+	return np, nil
+}
+
 // carrier is a source built around the stream of a run.
 type carrier struct {
 	src      io.Reader
@@ -151,6 +195,21 @@ func headerFor(n int) []byte { return make([]byte, n) }
 // buildCarrier wraps the finite stream st for configuration c. sim is the
 // simulated device over the same stream (used by the bufio carrier).
 func buildCarrier(c *RunConfig, st *Stream, sim *SimSource) (*carrier, error) {
+	simConsumed := func() int64 {
+		sim.mu.Lock()
+		defer sim.mu.Unlock()
+		return sim.Delivered
+	}
+	// wrappers of the simulated device: every device behaviour (read sizes,
+	// faults, endless streams) stays available behind another dynamic type
+	switch c.Carrier {
+	case "func":
+		return &carrier{src: readerFunc(sim.Read), consumed: simConsumed, cleanup: func() {}}, nil
+	case "valuestruct":
+		return &carrier{src: valueSource{dev: sim, tags: []string{"rng0"}}, consumed: simConsumed, cleanup: func() {}}, nil
+	case "seeker":
+		return &carrier{src: seekableSim{dev: sim}, consumed: simConsumed, cleanup: func() {}}, nil
+	}
 	if st.Len() < 0 {
 		return nil, nil
 	}
@@ -172,7 +231,7 @@ func buildCarrier(c *RunConfig, st *Stream, sim *SimSource) (*carrier, error) {
 		ff := &fifoSource{data: st.data, cap: 4096}
 		return &carrier{src: ff, consumed: func() int64 { ff.mu.Lock(); defer ff.mu.Unlock(); return int64(ff.pos) }, cleanup: func() {}}, nil
 	case "bufio":
-		br := bufio.NewReaderSize(sim, 4096)
+		br := bufio.NewReaderSize(sim, []int{4096, 16, 64, 1024, 65536, 4096}[off%6])
 		return &carrier{src: br, consumed: func() int64 {
 			sim.mu.Lock()
 			d := sim.Delivered
